@@ -51,6 +51,8 @@ RULE = (
     "Concurrent calls (stream concurrent): 2-4 project_grid calls with the same string method on different grids (same shape, values offset by 1000, own names, "
     "own affine maps, antialias off) at the same time in threads - with a rendezvous inside the projection callable and in plain rounds - and concurrent "
     "convexhull_mask calls; each judged against its own inputs and against the same call made alone. "
+    "Byte order (stream byteorder): data, query and grid index coordinates of dtype >f8, >f4, >i4 (astype and read-only np.frombuffer views), one or both "
+    "arrays swapped, and big-endian grid values - compared with native copies of the same values. "
     "methods nearest/linear/cubic and gridder objects, both antialias settings, region/shape/spacing/dims kwargs; projected grids keep "
     "cell_aspect*(1+offset/extent) <= 1e4 except in the always-on stream pg_anisotropic (>= 1e5, known finding F10). Non-trivial = at least one "
     "query strictly inside and one strictly outside (mask) or a non-identity projection with a non-square grid (project_grid); distinct = "
@@ -68,6 +70,7 @@ ASSUMPTIONS = [
     "known finding F11: on hulls thinner than 1e-2 (width/diameter, normalised frame) the main streams do not query the data points themselves; "
     "that class runs in the small stream thin_vertices. All other queries on thin hulls (uniform, boundary-hugging, hull vertices) stay in the main streams",
 ]
+BYTE_ORDER_DTYPES_ = [">f8", ">f4", ">i4"]
 AXES_ORIENTATIONS_ = ["ascending", "northing_descending", "easting_descending", "both_descending"]
 FLOORS = {
     "quick": {"eval:mask_array": 120000, "eval:mask_grid": 55000, "eval:mask_affine_invariance": 50000, "eval:mask_forms_agree": 14000,
@@ -126,6 +129,14 @@ for _tier, _n in (("quick", 8), ("thorough", 160)):
                           "concurrent:rendezvous_met": int(0.4 * _n), "concurrent:project_grid_plain_rounds": int(0.5 * _n),
                           "concurrent:project_grid_shared_inputs_rounds": int(0.5 * _n), "concurrent:convexhull_mask_rounds": int(0.5 * _n),
                           "concurrent:plain_rounds_with_yield_injection": int(0.2 * _n), "yields_injected": 20 * _n})
+for _tier, _n in (("quick", 36), ("thorough", 720)):
+    FLOORS[_tier].update({"eval:byteorder_invariance": int(0.4 * 9 * _n), "byteorder:grid_index_coordinate_stays_non_native": int(0.4 * _n)})
+    FLOORS[_tier].update({"byteorder:dtype_" + d: int(0.12 * _n) for d in BYTE_ORDER_DTYPES_})
+    FLOORS[_tier].update({"byteorder:" + k: int(0.4 * _n) for k in ("mask_data_swapped", "mask_query_swapped", "mask_both_swapped", "mask_easting_only_swapped",
+                                                                  "mask_query_1d_swapped", "mask_grid_index_coordinates_swapped", "mask_grid_and_data_swapped",
+                                                                  "mask_data_swapped")})
+    FLOORS[_tier]["byteorder:project_grid_values_swapped_no_antialias"] = int(0.25 * _n)
+    FLOORS[_tier].update({"byteorder:made_by_frombuffer": int(0.2 * _n), "byteorder:made_by_astype": int(0.2 * _n)})
 JOBS = {"quick": 1, "thorough": 8}
 CASE_TIMEOUT_S = 300
 
@@ -134,9 +145,9 @@ _STATE = {}
 
 def plan(tier):
     if tier == "quick":
-        out = collections.OrderedDict(cloud=300, lattice=150, thin=200, affine=120, forms=120, layouts=50, twins=50, constructions=30, axes=60, extras=50, concurrent=8, pg_affine=250, pg_general=350)
+        out = collections.OrderedDict(cloud=300, lattice=150, thin=200, affine=120, forms=120, layouts=50, twins=50, constructions=30, axes=60, extras=50, byteorder=36, concurrent=8, pg_affine=250, pg_general=350)
     else:
-        out = collections.OrderedDict(cloud=6000, lattice=3000, thin=4000, affine=2400, forms=2400, layouts=1000, twins=1000, constructions=600, axes=1200, extras=1000, concurrent=160, pg_affine=5000, pg_general=7000)
+        out = collections.OrderedDict(cloud=6000, lattice=3000, thin=4000, affine=2400, forms=2400, layouts=1000, twins=1000, constructions=600, axes=1200, extras=1000, byteorder=720, concurrent=160, pg_affine=5000, pg_general=7000)
     # two small always-on streams reproduce the known findings F10 / F11 (known_findings.json) in every run: case 0 of each is a fixed
     # witness, the rest are seeded inputs of the same class. Everything they trigger must match the finding's classifier below,
     # anything else is reported as a plain violation.
@@ -328,7 +339,17 @@ def install(tap, run):
             inside, outside, either = sign > 0, sign < 0, sign == 0
             depth, margin = hull.depth(qx, qy), 0.0
         else:
-            inside, outside, either, depth, margin = hull.classify(qx, qy)
+            # coordinates handed over in single precision are normalised in single precision: the round-off part of the band follows the
+            # precision of the arguments (the 1e-9 diameters stay)
+            eps = ref.EPS
+            try:
+                given = list(a["data_coordinates"][:2]) + (list(a["coordinates"][:2]) if grid is None else [grid.coords[d].values for d in _grid_nodes(grid)[2][:2]])
+                if any(getattr(np.asarray(c), "dtype", np.dtype("float64")) == np.dtype("float32").newbyteorder(o) for c in given for o in ("<", ">")):
+                    eps = float(np.finfo("float32").eps)
+                    run.count("mask:single_precision_arguments")
+            except Exception:  # noqa: BLE001
+                pass
+            inside, outside, either, depth, margin = hull.classify(qx, qy, eps=eps)
             if margin > 1e-3:
                 run.count("skipped:mask_uninformative_margin")
                 return
@@ -1024,6 +1045,8 @@ def run_case(run, tap, stream, index, rng):  # noqa: U100
         _axes_case(run, verde, make_hull, index, rng)
     elif stream == "extras":
         _extras_case(run, verde, make_hull, index, rng)
+    elif stream == "byteorder":
+        _byteorder_case(run, verde, make_hull, index, rng)
     elif stream == "concurrent":
         _concurrent_case(run, verde, make_hull, index, rng)
     elif stream == "thin_vertices":
@@ -1782,6 +1805,140 @@ def _extras_case(run, verde, make_hull, index, rng):
                                "mask": res, "mask_two_coordinates": ref_res}, key="extras:%s:%s" % (form, where))
     run.sample("extras", {"n_data": n, "non_finite": repr(bad), "where": where, "points_affected": int(sel.sum()), "hull_vertices": int(is_vertex.sum()),
                           "monitor": "mask == exact hull test on (easting, northing) of all data points == two-coordinate call"})
+
+
+BYTE_ORDER_DTYPES = [">f8", ">f4", ">i4"]
+
+
+def _byteorder_case(run, verde, make_hull, index, rng):
+    """
+    Coordinates in NON-NATIVE byte order (np.frombuffer on big-endian files, .astype('>f8')) as data_coordinates, query coordinates and
+    index coordinates of the grid: same result as for native copies of the same values (and the exact hull, judged by the monitors on the
+    values). Asserted for the combinations the unchanged stack accepts: every coordinate combination, and big-endian grid VALUES without
+    antialiasing; big-endian values with antialiasing, and big-endian index coordinates of a grid that has NaN cells (DataFrame.dropna), are
+    refused by pandas ("Big-endian buffer not supported") and only counted.
+    """
+    import xarray as xr
+
+    dt = np.dtype(BYTE_ORDER_DTYPES[index % 3])
+    native = dt.newbyteorder("=")
+    assert not dt.isnative and native.isnative
+    n = int(rng.choice([6, 15, 40, 80]))
+    if dt.kind == "i":
+        size = int(rng.integers(6, 40))
+        flat = rng.permutation(size * size)[:n]
+        dx, dy = (flat % size).astype("float64") + int(rng.integers(-500, 500)), (flat // size).astype("float64") + int(rng.integers(-500, 500))
+    else:
+        dx, dy = gen.cloud(rng, n, kind=str(rng.choice(["uniform", "jitter", "clusters"])), scale=gen.log_uniform(rng, 1e-2, 1e5), offset_factor=float(rng.choice([0.0, 1.0, 30.0])))
+    dx, dy = dx.astype(native), dy.astype(native)  # the values as this dtype holds them
+    hull = make_hull(dx, dy)
+    if hull.degenerate or hull.thin_ratio < 1e-2:
+        run.count("byteorder:skipped_thin_or_degenerate_cloud")
+        return
+    qx, qy = queries_for(rng, hull, dx.astype("float64"), dy.astype("float64"), n_uniform=140, n_edge=0 if dt.kind == "i" else 30)
+    if dt.kind == "i":
+        qx, qy = np.round(qx), np.round(qy)
+    k = qx.size // 5 * 5
+    qx, qy = qx[:k].reshape(5, -1).astype(native), qy[:k].reshape(5, -1).astype(native)
+
+    def swapped(a, how):
+        """The same values in the non-native byte order: converted, or read from a big-endian byte buffer (read-only)."""
+        if how == "astype":
+            return a.astype(dt)
+        return np.frombuffer(a.astype(dt).tobytes(), dtype=dt).reshape(a.shape)
+
+    how = ["astype", "frombuffer"][index % 2]
+    run.count("byteorder:dtype_%s" % dt.str)
+    run.count("byteorder:made_by_%s" % how)
+    base = _mask_call(run, verde, (dx, dy), coordinates=(qx, qy))
+
+    def compare(label, result, reference, monitor="byteorder_invariance"):
+        run.count("byteorder:%s" % label)
+        if reference is None:
+            return
+        run.evaluated(monitor)
+        if result is None:
+            run.violation(monitor, "%s with %s coordinates is refused although native copies of the same values are accepted" % (label, dt.str),
+                          {"class": label, "dtype": dt.str, "data": [dx, dy]}, key="byteorder:refused:" + label)
+            return
+        a, b = np.asarray(getattr(result, "values", result)), np.asarray(getattr(reference, "values", reference))
+        ok = a.shape == b.shape and bool(np.all((a == b) | ((a != a) & (b != b))))
+        if ok and hasattr(reference, "dims"):
+            ok = all(np.array_equal(np.asarray(result.coords[d].values, dtype="float64"), np.asarray(reference.coords[d].values, dtype="float64")) for d in reference.dims)
+        if not ok:
+            run.violation(monitor, "%s: %s (non-native byte order) coordinates give a different result than native copies of the same values "
+                          "(%d of %d elements differ)" % (label, dt.str, int((~((a == b) | ((a != a) & (b != b)))).sum()) if a.shape == b.shape else -1, b.size),
+                          {"class": label, "dtype": dt.str, "made_by": how, "data": [dx, dy], "native_result": b, "result": a}, key="byteorder:" + label)
+
+    compare("mask_data_swapped", _mask_call(run, verde, (swapped(dx, how), swapped(dy, how)), coordinates=(qx, qy)), base)
+    compare("mask_query_swapped", _mask_call(run, verde, (dx, dy), coordinates=(swapped(qx, how), swapped(qy, how))), base)
+    compare("mask_both_swapped", _mask_call(run, verde, (swapped(dx, how), swapped(dy, how)), coordinates=(swapped(qx, how), swapped(qy, how))), base)
+    compare("mask_easting_only_swapped", _mask_call(run, verde, (swapped(dx, how), dy), coordinates=(swapped(qx, how), qy)), base)
+    compare("mask_query_1d_swapped", _mask_call(run, verde, (dx, dy), coordinates=(swapped(qx.ravel(), how), swapped(qy.ravel(), how))),
+            None if base is None else np.asarray(base).ravel())
+    # grid form: the index coordinates of the Dataset in non-native byte order
+    lo_e, hi_e, lo_n, hi_n = float(dx.min()) - 2, float(dx.max()) + 3, float(dy.min()) - 3, float(dy.max()) + 2
+    if dt.kind == "i":
+        east, north = np.arange(lo_e, hi_e + 1), np.arange(lo_n, hi_n + 1)
+        east, north = east[:: max(1, east.size // 15)], north[:: max(1, north.size // 12)]
+    else:
+        w, h = float(np.ptp(dx.astype("float64"))), float(np.ptp(dy.astype("float64")))
+        east = np.linspace(float(dx.min()) - 0.2 * w, float(dx.max()) + 0.3 * w, int(rng.integers(6, 18)))
+        north = np.linspace(float(dy.min()) - 0.3 * h, float(dy.max()) + 0.2 * h, int(rng.integers(5, 15)))
+    east, north = east.astype(native), north.astype(native)
+    vals = rng.normal(size=(north.size, east.size))
+    dims = [("northing", "easting"), ("latitude", "longitude")][index % 2]
+    ds_native = xr.Dataset({"scalars": (list(dims), vals.copy())}, coords={dims[0]: north, dims[1]: east})
+    ds_swapped = xr.Dataset({"scalars": (list(dims), vals.copy())}, coords={dims[0]: swapped(north, how), dims[1]: swapped(east, how)})
+    if not ds_swapped.coords[dims[1]].dtype.isnative:
+        run.count("byteorder:grid_index_coordinate_stays_non_native")
+    gbase = _mask_call(run, verde, (dx, dy), grid=ds_native)
+    res = _mask_call(run, verde, (dx, dy), grid=ds_swapped)
+    compare("mask_grid_index_coordinates_swapped", None if res is None else res["scalars"], None if gbase is None else gbase["scalars"])
+    res = _mask_call(run, verde, (swapped(dx, how), swapped(dy, how)), grid=ds_swapped)
+    compare("mask_grid_and_data_swapped", None if res is None else res["scalars"], None if gbase is None else gbase["scalars"])
+    # project_grid: index coordinates (asserted for all methods / antialias settings) and values (asserted without antialiasing)
+    pvals = gen.smooth_field(rng, *np.meshgrid(east.astype("float64"), north.astype("float64")))
+    if index % 4 == 1:
+        pvals[:2, :3] = np.nan
+    proj = axis_affine(rng, east.astype("float64"), north.astype("float64"))
+    method = ["linear", "nearest", "cubic"][(index // 3) % 3]
+    antialias = bool((index // 9) % 2)
+
+    def project(values, n_vec, e_vec, aa):
+        try:
+            with warnings.catch_warnings():
+                warnings.simplefilter("ignore")
+                return verde.project_grid(xr.DataArray(values, coords={dims[0]: n_vec, dims[1]: e_vec}, dims=dims, name="field"), proj, method=method, antialias=aa), None
+        except _STATE["QhullError"]:
+            run.count("refused:project_grid_qhull (counted, not failed)")
+            return None, "qhull"
+        except ValueError as exc:
+            if "Big-endian buffer not supported" in str(exc):
+                return None, "pandas_big_endian"
+            raise
+
+    ref_out, why = project(pvals.copy(), north, east, antialias)
+    if why is None:
+        out, why = project(pvals.copy(), swapped(north, how), swapped(east, how), antialias)
+        if why == "pandas_big_endian" and np.isnan(pvals).any():
+            # measured on the unchanged stack: DataFrame.dropna() on big-endian coordinate columns is refused by pandas when the grid has NaN cells
+            run.count("byteorder:project_grid_index_coordinates_swapped_with_nan_cells:refused_by_pandas (counted)")
+        elif why != "qhull":
+            compare("project_grid_index_coordinates_swapped:%s:antialias_%s" % (method, antialias), out, ref_out, "byteorder_invariance")
+        ref_plain, why = project(pvals.copy(), north, east, False)
+        out, why2 = project(pvals.astype(">f8"), north, east, False)
+        if why2 == "pandas_big_endian" and np.isnan(pvals).any():
+            run.count("byteorder:project_grid_values_swapped_with_nan_cells:refused_by_pandas (counted)")
+        elif why is None and why2 != "qhull":
+            compare("project_grid_values_swapped_no_antialias", out, ref_plain)
+        out, why3 = project(pvals.astype(">f8"), north, east, True)
+        run.count("byteorder:project_grid_values_swapped_with_antialias:%s" % ("refused_by_pandas (counted)" if why3 == "pandas_big_endian" else "accepted" if why3 is None else why3))
+        if why3 is None:
+            ref_aa, _ = project(pvals.copy(), north, east, True)
+            compare("project_grid_values_swapped_with_antialias", out, ref_aa)
+    run.sample("byteorder", {"dtype": dt.str, "made_by": how, "n_data": n, "grid_shape": [int(north.size), int(east.size)], "method": method, "antialias": antialias,
+                             "monitor": "result for non-native byte order == result for native copies of the same values; every call also judged by the hull / project_grid monitors"})
 
 
 class _RendezvousProjection(Projection):
